@@ -14,7 +14,7 @@ META = {
                   'Additionally every run traces real executions (compiler-instrumented: every atomic with the memory order actually given, every plain access to the shared objects) under controlled interleavings and '
                   'evaluates happens-before with the Lean vector-clock detector: no conflicting plain accesses unordered by hb.',
     'level_note': 'Trusted: Lean kernel; the DRF-SC theorem of C11; tools/skeleton.py + clang AST; gcc\'s -fsanitize=thread instrumentation pass as the access tracer (no TSan run-time is linked: harness/h_race.c supplies the callbacks); '
-                  'the detector treats consume as acquire and ignores fences (the code has only atomic_signal_fence). Not done: real-thread ThreadSanitizer soaks (a different technique) and anything about how a compiler/CPU implements seq_cst. '
+                  'the detector treats consume as acquire and ignores fences (the code has only atomic_signal_fence). The thorough tier also runs free-running real threads under the real ThreadSanitizer as a supporting cross-check (a different technique: it decides nothing). Nothing is claimed about how a compiler/CPU implements seq_cst. '
                   'A weakened memory order cannot be made to misbehave on this x86 host; it is reported through the broken static obligation and, when a traced execution shows it, as a concrete hb race.',
     'design_ref': '§6 C07, §11',
 }
@@ -102,6 +102,27 @@ def analyse(ctx, exe, scs, timeout=600):
     return info, res
 
 
+def tsan_soak(ctx):
+    """supporting evidence only (thorough tier): free-running real threads under the real ThreadSanitizer run-time"""
+    R = vlib.REPO
+    exe = os.path.join(ctx.tmp, 'h_tsan_soak')
+    rc, out, err = vlib.sh(['gcc', '-O1', '-g', '-fsanitize=thread', '-I' + R + '/include', os.path.join(vlib.VERIF, 'harness/h_tsan_soak.c')] +
+                           [R + '/librfn/' + f for f in ('ringbuf.c', 'messageq.c', 'fibre.c', 'list.c', 'util.c', 'posix/time_posix.c')] + ['-o', exe, '-lpthread'], timeout=300)
+    if rc != 0:
+        ctx.notes.append('ThreadSanitizer soak not built (supporting evidence only): ' + (out + err)[-300:]); return
+    res = {}
+    for mode, n in (('ring', 3000000), ('mq', 400000), ('fibre', 300000)):
+        rc, out, err = vlib.sh([exe, mode, str(n)], timeout=900, env={'TSAN_OPTIONS': 'halt_on_error=1 exitcode=66'})
+        res[mode] = 'clean' if rc == 0 and out.startswith('OK') else f'rc={rc}'
+        if rc == 66 or 'WARNING: ThreadSanitizer' in err:
+            ctx.violation({'obligation': 'real threads under ThreadSanitizer (supporting cross-check of the happens-before analysis)', 'mode': mode, 'iterations': n,
+                           'report': err[-3000:], 'how_to_rerun': f'h_tsan_soak {mode} {n} (non-deterministic schedule)'}, key='tsan:' + mode)
+            break
+        if rc != 0:
+            ctx.broken.append(f'ThreadSanitizer soak {mode}: functional failure or crash rc={rc}: {err[-300:]}')
+    ctx.cov['threadsanitizer_real_thread_soak'] = res
+
+
 def campaign(ctx, exe, scs, label, tot_orders, stats):
     info, res = analyse(ctx, exe, scs)
     for i, s in enumerate(scs):
@@ -166,6 +187,8 @@ def run(ctx):
         campaign(ctx, build_tracer(ctx, fallback=True), half, 'fallback configuration -D__STDC_NO_ATOMICS__', tot_orders, stats)
         ctx.cov['fallback_configuration_scenarios'] = len(half)
     nev, clean = stats['events'], stats['clean']
+    if ctx.tier == 'thorough' and not ctx.violations:
+        tsan_soak(ctx)
     weak = {k: v for k, v in tot_orders.items() if k != 'seq_cst'}
     if weak and not ctx.violations:
         ctx.broken.append(f'dynamic cross-check: atomic operations executed with memory orders other than seq_cst: {weak} (the static table says all seq_cst)')
